@@ -11,7 +11,7 @@ trap cleanup EXIT
 cd "$W" || exit 9
 mkdir -p _seed; cp -r "$SRC"/* _seed/ 2>/dev/null; rm -rf _seed/_demo_build _seed/_cfg
 LOG=/tmp/cs/$NAME.log; : > "$LOG"
-sh _seed/build_demo.sh >>"$LOG" 2>&1; P0=$?
+bash _seed/build_demo.sh >>"$LOG" 2>&1; P0=$?
 echo "demo pristine exit=$P0" | tee -a "$LOG"
 (git apply _seed/patch.diff 2>/dev/null || patch -p1 --fuzz=3 --no-backup-if-mismatch < _seed/patch.diff >>"$LOG" 2>&1) || { echo "PATCH DOES NOT APPLY" | tee -a "$LOG"; exit 3; }
 git diff -- src inc > _seed/patch.rebased.diff
@@ -21,7 +21,7 @@ echo "build with change exit=$BUILD" | tee -a "$LOG"
 (cd _build && ./inovesa-test >/dev/null 2>&1); TRC=$?
 echo "unit tests with change rc=$TRC" | tee -a "$LOG"
 rm -rf _seed/_demo_build
-sh _seed/build_demo.sh >>"$LOG" 2>&1; P1=$?
+bash _seed/build_demo.sh >>"$LOG" 2>&1; P1=$?
 echo "demo with change exit=$P1" | tee -a "$LOG"
 if [ "$P0" = 0 ] && [ "$BUILD" = 0 ] && [ "$TRC" = 0 ] && [ "$P1" != 0 ]; then
   D=/verif/seeded/$NAME; mkdir -p "$D"
